@@ -80,7 +80,7 @@ def showEv : Ev → Option String
 
 /-- the canonical schedule, recording the tap deliveries of IPv4 frames -/
 def runTrace (topo : Topo) : Nat → CState → List String → Except String (CState × List String)
-  | 0, s, acc => .ok (s, acc)
+  | 0, _, _ => .error "model-not-quiescent-within-step-budget"
   | fuel + 1, s, acc =>
     match nextChoice s with
     | none => .ok (s, acc)
@@ -101,7 +101,7 @@ def runTrace (topo : Topo) : Nat → CState → List String → Except String (C
 def sortStrings (l : List String) : List String := (l.toArray.qsort (fun a b => a < b)).toList
 
 def settle (st : St) (withArp : Bool) (before : CState) : St × String :=
-  match runTrace st.topo 1000000 st.cs [] with
+  match runTrace st.topo 40000 st.cs [] with
   | .error e => ({ st with dead := true }, e)
   | .ok (s, taps) =>
     let evs := (s.log.drop before.log.length).filterMap showEv
